@@ -113,6 +113,10 @@ theorem stepThread_ev_shape (c : Cfg) (s : St) (t : Th) (s' : St) (t' : Th) (ev 
         · exact Or.inl h3.symm
       | false => simp only [stepThread, Option.some.injEq, Prod.mk.injEq] at h; exact Or.inl h.2.2.symm
     | done => simp [stepThread] at h
+  | reload dn =>
+    cases dn with
+    | false => simp only [stepThread, Option.some.injEq, Prod.mk.injEq] at h; exact Or.inl h.2.2.symm
+    | true => simp [stepThread] at h
 
 /-- what one thread step does, as far as validity and announcement events are concerned -/
 structure StepFacts (c : Cfg) (s : St) (t : Th) (s' : St) (t' : Th) (ev : List Ev) : Prop where
@@ -257,6 +261,13 @@ theorem stepThread_facts (c : Cfg) (s : St) (t : Th) (s' : St) (t' : Th) (ev : L
         obtain ⟨rfl, _, rfl⟩ := h
         exact stepFacts_same c s _ _ [] (by simp) (by simp)
     | done => simp [stepThread] at h
+  | reload dn =>
+    cases dn with
+    | false =>
+      simp only [stepThread, Option.some.injEq, Prod.mk.injEq] at h
+      obtain ⟨rfl, _, rfl⟩ := h
+      exact stepFacts_same c s _ _ [] (by simp) (by simp)
+    | true => simp [stepThread] at h
 
 /-! ### the announcement discipline on event traces -/
 
@@ -290,6 +301,7 @@ def Th.atStart : Th → Bool
   | .ingest _ _ _ _ _ _ .start => true
   | .sweeper _ _ .start => true
   | .handler _ _ .start => true
+  | .reload false => true
   | _ => false
 
 theorem pcok_of_atStart (t : Th) (h : t.atStart = true) : PCok t := by
@@ -297,6 +309,7 @@ theorem pcok_of_atStart (t : Th) (h : t.atStart = true) : PCok t := by
   | ingest k tr now cov probe live pc => cases pc <;> simp_all [Th.atStart, PCok]
   | sweeper now order pc => simp [PCok]
   | handler k tr pc => simp [PCok]
+  | reload dn => simp [PCok]
 
 theorem stepThread_pcok (c : Cfg) (s : St) (t : Th) (s' : St) (t' : Th) (ev : List Ev)
     (h : stepThread c s t = some (s', t', ev)) (hp : PCok t) : PCok t' := by
@@ -347,15 +360,46 @@ theorem stepThread_pcok (c : Cfg) (s : St) (t : Th) (s' : St) (t' : Th) (ev : Li
     | looked f =>
       cases f <;> (simp only [stepThread, Option.some.injEq, Prod.mk.injEq] at h; obtain ⟨_, rfl, _⟩ := h; simp [PCok])
     | done => simp [stepThread] at h
+  | reload dn =>
+    cases dn with
+    | false => simp only [stepThread, Option.some.injEq, Prod.mk.injEq] at h; obtain ⟨_, rfl, _⟩ := h; simp [PCok]
+    | true => simp [stepThread] at h
+
+theorem pcok_applyPolicy (b : Bool) (t : Th) (h : PCok t) : PCok (applyPolicy b t) := by
+  cases t with
+  | ingest k tr now cov probe live pc => cases pc <;> simp_all [applyPolicy, PCok]
+  | sweeper now order pc => exact h
+  | handler k tr pc => exact h
+  | reload dn => exact h
+
+/-- the policy substitution only touches a worker that is about to read the policy -/
+theorem applyPolicy_eq_of_not_afterTrack (b : Bool) (t : Th)
+    (h : ∀ k tr now cov probe live, t ≠ .ingest k tr now cov probe live .afterTrack) : applyPolicy b t = t := by
+  cases t with
+  | ingest k tr now cov probe live pc =>
+    cases pc <;> first | rfl | exact absurd rfl (h k tr now cov probe live)
+  | sweeper now order pc => rfl
+  | handler k tr pc => rfl
+  | reload dn => rfl
+
+theorem applyPolicy_beforeRegister (b : Bool) (t : Th) (k : Key) (tr now : Nat) (cov probe live : Bool)
+    (h : applyPolicy b t = .ingest k tr now cov probe live .beforeRegister) :
+    t = .ingest k tr now cov probe live .beforeRegister := by
+  cases t with
+  | ingest k' tr' now' cov' probe' live' pc =>
+    cases pc <;> simp_all [applyPolicy]
+  | sweeper now order pc => simp [applyPolicy] at h
+  | handler k tr pc => simp [applyPolicy] at h
+  | reload dn => simp [applyPolicy] at h
 
 /-- a worker for `k` that has executed its validate step, having passed policy and liveness -/
 def Validator (k : Key) (t : Th) : Prop :=
   ∃ tr now probe live, t = .ingest k tr now true probe live .done ∧ (probe = true → live = false)
 
-theorem stepThread_done_none (c : Cfg) (s : St) (k : Key) (t : Th) (h : Validator k t) :
-    stepThread c s t = none := by
+theorem stepThread_done_none (c : Cfg) (s : St) (k : Key) (t : Th) (b : Bool) (h : Validator k t) :
+    stepThread c s (applyPolicy b t) = none := by
   obtain ⟨tr, now, probe, live, rfl, _⟩ := h
-  simp [stepThread]
+  simp [stepThread, applyPolicy]
 
 /-! ### the world invariant -/
 
@@ -383,8 +427,8 @@ theorem winv_step (c : Cfg) (w : World) (i : Nat) (hw : WInv c w) : WInv c (w.st
     split
     · exact ⟨hw.pcok, hw.annOk, hw.validator, hw.looked⟩
     · rename_i s' t' ev hs
-      have hf := stepThread_facts c w.st t s' t' ev hs
-      have hshape := stepThread_ev_shape c w.st t s' t' ev hs
+      have hf := stepThread_facts c w.st _ s' t' ev hs
+      have hshape := stepThread_ev_shape c w.st _ s' t' ev hs
       have hmem : t ∈ w.ths := List.mem_of_getElem? hti
       have hilt : i < w.ths.length := by
         rcases Nat.lt_or_ge i w.ths.length with h | h
@@ -397,13 +441,13 @@ theorem winv_step (c : Cfg) (w : World) (i : Nat) (hw : WInv c w) : WInv c (w.st
         by_cases e : i = j
         · subst e
           rw [hti] at hj; cases hj
-          rw [stepThread_done_none c w.st k t hv] at hs; cases hs
+          rw [stepThread_done_none c w.st k t _ hv] at hs; cases hs
         · exact ⟨j, u, by rw [List.getElem?_set_ne e]; exact hj, hv⟩
       refine ⟨?_, ?_, ?_, ?_⟩
       · intro u hu
         rcases List.mem_or_eq_of_mem_set hu with h | h
         · exact hw.pcok u h
-        · rw [h]; exact stepThread_pcok c w.st t s' t' ev hs (hw.pcok t hmem)
+        · rw [h]; exact stepThread_pcok c w.st _ s' t' ev hs (pcok_applyPolicy _ t (hw.pcok t hmem))
       · intro k
         obtain ⟨hok, hopen⟩ := hw.annOk k
         show (annSt k (w.evs ++ ev)).2 = true ∧ ((annSt k (w.evs ++ ev)).1 = true → validIn s' k)
@@ -464,7 +508,8 @@ theorem winv_step (c : Cfg) (w : World) (i : Nat) (hw : WInv c w) : WInv c (w.st
         show ∃ (j : Nat) (u : Th), (w.ths.set i t')[j]? = some u ∧ Validator k u
         by_cases hbefore : validIn w.st k
         · exact keepW k (hw.validator k hbefore)
-        · obtain ⟨tr, now, cov, probe, live, ht, ht'⟩ := hf.fresh k hbefore hk
+        · obtain ⟨tr, now, cov, probe, live, ht0, ht'⟩ := hf.fresh k hbefore hk
+          have ht := applyPolicy_beforeRegister _ t k tr now cov probe live ht0
           have hp := hw.pcok t hmem
           rw [ht] at hp
           simp only [PCok] at hp
